@@ -775,3 +775,74 @@ def main(qs: array[qubit, 2], n: int) -> int:
         c += i
     return c
 ''')
+
+# ---------------------------------------------------------------- boundary-prone shapes (round 2)
+_t("tuple_index_literals", ["tuple", "subscript", "boundary"], '''
+@guppy
+def main(t: tuple[int, float, bool], u: tuple[int]) -> int:
+    a = t[0]
+    b = u[0]
+    p = (a, b)
+    e = ()
+    last = t[2]
+    return p[1] + p[0] + a
+''')
+
+_t("annotated_declarations", ["annassign", "boundary"], '''
+@guppy
+def main(n: int, flag: bool) -> int:
+    total: int = 0
+    step: int = 1
+    if flag:
+        step = 2
+    total += n * step
+    return total
+''')
+
+_t("explicit_dunder_calls", ["dunder", "method", "boundary"], '''
+@guppy
+def main(x: int, y: int, f: float, xs: array[int, 3]) -> int:
+    a = x.__add__(y)
+    b = a.__neg__()
+    c = xs.__getitem__(1)
+    d = f.__lt__(2.5)
+    if d:
+        return a.__mul__(c)
+    return b
+''')
+
+_t("empty_and_singleton_arrays", ["array", "boundary", "for"], '''
+@guppy
+def main(xs: array[int, 0] @ owned, ys: array[int, 1] @ owned) -> int:
+    acc = 0
+    for v in xs:
+        acc += v
+    [single] = ys
+    zs = array(single)
+    return acc + zs[0]
+''')
+
+_t("comptime_tuple_values", ["comptime", "tuple", "boundary"], '''
+@guppy
+def main(k: int) -> int:
+    pair: tuple[int, int] = comptime((1, 2))
+    first, second = pair
+    trip = comptime((3, 4.5, True))
+    return first + second + trip[0] + k
+''')
+
+_t("generic_container_calls", ["generic", "array", "call", "boundary"], '''
+@guppy
+def main(k: int) -> int:
+    a = fst(array(k, 2))
+    b = fst(array(a))
+    return a + b
+''', helpers='''
+T = guppy.type_var("T")
+n = guppy.nat_var("n")
+
+
+@guppy
+def fst(xs: array[T, n] @ owned) -> int:
+    return 1
+''')
